@@ -15,8 +15,8 @@ LEVEL = "exploration"
 RULE = (
     "every schema of the family holding 1..4 named types x EVERY subset of its non-top named types hoisted out: each "
     "hoisted type is parsed on its own (dependencies first) against one shared named-schema dictionary and only referred "
-    "to by full name from the rest x the operations {schemaless write+read, container write then read from the bytes "
-    "alone, JSON write+read, validate, canonical form, generate_one under a fixed random source, parse_schema of the parsed "
+    "to by full name from the rest x the operations {schemaless write+read, use as READER schema over data written with the raw "
+    "form (schemaless and container), container write then read from the bytes alone, JSON write+read, validate, canonical form, generate_one under a fixed random source, parse_schema of the parsed "
     "form} x D_1 data. Oracle: identical bytes / values / texts for the raw, the parsed and the piecewise form (raw is the "
     "reference form; its own correctness is C01-C15's business); parse_schema(parsed) returns the same object for records "
     "and an equal one otherwise. distinct_nontrivial = distinct (schema, hoisted subset, operation, datum) tuples; subsets "
@@ -158,6 +158,20 @@ def ops(fa, schema, d, raw_for_reader=None):
         t = fo.getvalue()
         return (json.loads(t) if t else None, list(fa.json_reader(io.StringIO(t), schema)))
 
+    def resolve():
+        # the form under test used as READER schema over data written with the raw form
+        if raw_for_reader is None:
+            return None
+        fo = io.BytesIO()
+        fa.schemaless_writer(fo, copy.deepcopy(raw_for_reader), d)
+        fo.seek(0)
+        a = fa.schemaless_reader(fo, copy.deepcopy(raw_for_reader), schema)
+        fo = io.BytesIO()
+        fa.writer(fo, copy.deepcopy(raw_for_reader), [d], sync_marker=b"P" * 16)
+        fo.seek(0)
+        return (a, list(fa.reader(fo, reader_schema=schema)))
+
+    out["as-reader-schema"] = outcome(resolve)
     out["schemaless"] = outcome(sl)
     out["container"] = outcome(cont)
     out["json"] = outcome(js)
@@ -250,10 +264,10 @@ def run_unit(i, tier):
                 res.add(Violation("c12.schema-op", f"{op}-differs:{fname}", f"{op} under the {fname} form (hoisted {sorted(hs)}) = {short(val, 300)}, under the raw form {short(ref_schema_ops[op], 300)} | {short(raw, 300)}",
                                   {"schema": raw, "hoist": sorted(hs), "op": op, "form": fname}))
     for d in data:
-        ref_out = ops(fa, copy.deepcopy(raw), d)
+        ref_out = ops(fa, copy.deepcopy(raw), d, raw)
         for fname, mk, hs in forms[1:]:
             note_case({"schema": raw, "hoist": sorted(hs), "datum": d})
-            got = ops(fa, mk(), d)
+            got = ops(fa, mk(), d, raw)
             for op, val in got.items():
                 res.evals += 1
                 keys.add((fname, hs, op, key(d)))
@@ -277,6 +291,33 @@ def run_unit(i, tier):
                                       {"schema": raw, "hoist": ["<union-of-parsed>"], "op": op, "form": "union-of-parsed", "datum": d}))
     except names.RefSchemaError:
         pass
+    # a top-level union [separately parsed pieces..., record referring to them]: cross references between branches
+    for r in range(1, min(2, len(hoistable)) + 1):
+        for sub in itertools.combinations(hoistable, r):
+            hs = frozenset(sub)
+            try:
+                pieces, main = split(raw, hs)
+                uraw2 = [copy.deepcopy(p) for p in pieces] + [copy.deepcopy(main)]
+                unode, udefs = names.resolve(uraw2)
+            except (names.RefSchemaError, KeyError):
+                continue
+            try:
+                table = {}
+                uparsed2 = [fa.parse_schema(copy.deepcopy(p), table) for p in pieces] + [fa.parse_schema(copy.deepcopy(main), table)]
+            except Exception as e:
+                res.add(Violation("c12.piecewise-parse", f"union-pieces-parse-raised:{type(e).__name__}", f"{e} | {short(raw, 300)}", {"schema": raw, "hoist": sorted(hs), "op": "parse"}))
+                continue
+            if not all(isinstance(x, dict) and x.get("type") in ("record", "error") for x in uparsed2):
+                continue  # only parsed records carry the table
+            for d in data[:12]:
+                a = ops(fa, copy.deepcopy(uraw2), d)
+                b = ops(fa, uparsed2, d)
+                for op in a:
+                    res.evals += 1
+                    keys.add(("union-of-pieces", hs, op, key(d)))
+                    if not _same_outcome(a[op], b[op]):
+                        res.add(Violation("c12.data-op", f"{op}-differs:union-of-pieces", f"{op} of {short(d, 120)} under the union [pieces {sorted(hs)}, main] of separately parsed records = {short(b[op], 250)}, raw union {short(a[op], 250)} | {short(raw, 250)}",
+                                          {"schema": raw, "hoist": sorted(hs), "op": op, "form": "union-of-pieces", "datum": d}))
     res.distinct = len(keys)
     res.stats["piecewise_forms"] += len(forms) - 2
     res.sample({"schema": raw, "named": allnamed, "piecewise_forms": len(forms) - 2, "data": len(data)})
